@@ -1,7 +1,7 @@
 //! Compile-fail witnesses (type-level remainder of the C17 / C12 / C02 rules).
 //!
 //! Each witness is a `compile_fail,E0xxx` doctest written as an external user of the crate would write it, paired with a
-//! compiling twin that differs only in the offending line (a witness whose path is merely wrong also "fails to compile").
+//! compile-only (`no_run`) twin that differs only in the offending line (a witness whose path is merely wrong also "fails to compile").
 //! Run with `cargo +nightly test --doc --offline` (stable ignores the error code).
 
 /// W1 (C17-X4): the mirrored lists of a `SparseMatrix` cannot be touched from outside the module.
@@ -14,7 +14,7 @@
 /// h.cols.clear(); // private field
 /// ```
 /// Twin: the public mutators are the only way in.
-/// ```
+/// ```no_run
 /// let mut h = ldpc_toolbox::sparse::SparseMatrix::new(2, 3);
 /// h.insert(1, 2);
 /// assert!(h.contains(1, 2));
@@ -26,7 +26,7 @@ pub struct W1SparseMatrixFieldsArePrivate;
 /// let x = ldpc_toolbox::gf2::GF2(2); // private tuple-struct constructor
 /// ```
 /// Twin: values come from `Zero`/`One`/arithmetic only.
-/// ```
+/// ```no_run
 /// use num_traits::{One, Zero};
 /// let x = ldpc_toolbox::gf2::GF2::one() + ldpc_toolbox::gf2::GF2::one();
 /// assert!(x.is_zero());
@@ -44,7 +44,7 @@ pub struct W2Gf2CannotBeForged;
 /// }
 /// ```
 /// Twin: the two sealed implementations are usable.
-/// ```
+/// ```no_run
 /// use ldpc_toolbox::simulation::channel::{AwgnChannel, Channel};
 /// let ch = AwgnChannel::new(0.0);
 /// let mut x = [1.0f64, -1.0];
